@@ -15,7 +15,7 @@
                         operations to a context variable (or its first / last element) and shows
                         it; a begin_for over a literal cell or over {@ x @} whose body does the
                         same with the loop variable — the loop variable IS the entry object;
-     inst / run_inst    one template instance: SheetParser.__init__ copies the context it is
+     minst / run_inst    one template instance: SheetParser.__init__ copies the context it is
                         handed, then the rows are evaluated in order;
      run_all            the instances of a run, one after another, in ONE process (one heap);
                         a failing template expression is LOGGER.critical: the run ends there.
@@ -100,10 +100,10 @@ Inductive mop :=
 | MSetItem0 (s : str)                 (* {% if X %}{% set _ = X.__setitem__(0, s) %}{% endif %} *)
 | MForPop.                            (* {% for q in X[1:] %}{{ X.pop() }}{% endfor %} *)
 
-Inductive aerr :=
-| AStop                 (* the expression raises (IndexError, UndefinedError ...): LOGGER.critical *)
-| AUnsupported          (* outside the model: nothing is claimed *)
-| AFuel.                (* read ran out of fuel *)
+Inductive xerr :=
+| XStop                 (* the expression raises (IndexError, UndefinedError ...): LOGGER.critical *)
+| XUnsupported          (* outside the model: nothing is claimed *)
+| XFuel.                (* read ran out of fuel *)
 
 (* str < str in Python: lexicographic on code points *)
 Fixpoint str_leb (s t : str) : bool :=
@@ -127,17 +127,17 @@ Definition dash : str := [45].
 
 (* the new content of the list and what the expression prints; list.remove(X[0]) removes the first
    element equal to X[0], i.e. X[0] itself *)
-Definition apply_op (o : mop) (l : list hv) : result aerr (list hv * list hv) :=
+Definition apply_op (o : mop) (l : list hv) : result xerr (list hv * list hv) :=
   match o with
-  | MPop => match rev l with [] => Err AStop | x :: r => Ok (rev r, [x]) end
-  | MPop0 => match l with [] => Err AStop | x :: r => Ok (r, [x]) end
+  | MPop => match rev l with [] => Err XStop | x :: r => Ok (rev r, [x]) end
+  | MPop0 => match l with [] => Err XStop | x :: r => Ok (r, [x]) end
   | MPopG => match rev l with [] => Ok ([], [HS dash]) | x :: r => Ok (rev r, [x]) end
   | MPop0G => match l with [] => Ok ([], [HS dash]) | x :: r => Ok (r, [x]) end
   | MAppend s => Ok (l ++ [HS s], [])
   | MInsert0 s => Ok (HS s :: l, [])
   | MReverse => Ok (rev l, [])
-  | MSort => match omapM as_str l with Some ss => Ok (map HS (sort_strs ss), []) | None => Err AUnsupported end
-  | MSortRev => match omapM as_str l with Some ss => Ok (map HS (rev (sort_strs ss)), []) | None => Err AUnsupported end
+  | MSort => match omapM as_str l with Some ss => Ok (map HS (sort_strs ss), []) | None => Err XUnsupported end
+  | MSortRev => match omapM as_str l with Some ss => Ok (map HS (rev (sort_strs ss)), []) | None => Err XUnsupported end
   | MExtend ss => Ok (l ++ map HS ss, [])
   | MClear => Ok ([], [])
   | MRemoveFirst => match l with [] => Ok ([], []) | _ :: r => Ok (r, []) end
@@ -150,19 +150,19 @@ Record obs := mk_obs { o_printed : list nv; o_shown : nv }.
 
 (* the operations of one cell on the list object at address a; what an expression prints is
    rendered when it is evaluated *)
-Fixpoint do_ops (h : heap) (a : addr) (ops : list mop) : result aerr (heap * list nv) :=
+Fixpoint do_ops (h : heap) (a : addr) (ops : list mop) : result xerr (heap * list nv) :=
   match ops with
   | [] => Ok (h, [])
   | o :: r =>
     match hget h a with
-    | None => Err AStop
+    | None => Err XStop
     | Some l =>
       match apply_op o l with
       | Err e => Err e
       | Ok (l', pr) =>
         let h1 := hset h a l' in
         match omapM (read read_fuel h1) pr with
-        | None => Err AFuel
+        | None => Err XFuel
         | Some pv =>
           match do_ops h1 a r with
           | Err e => Err e
@@ -173,12 +173,12 @@ Fixpoint do_ops (h : heap) (a : addr) (ops : list mop) : result aerr (heap * lis
     end
   end.
 
-Definition cell (h : heap) (a : addr) (ops : list mop) : result aerr (heap * obs) :=
+Definition cell (h : heap) (a : addr) (ops : list mop) : result xerr (heap * obs) :=
   match do_ops h a ops with
   | Err e => Err e
   | Ok (h1, pv) => match read read_fuel h1 (HR a) with
                    | Some s => Ok (h1, mk_obs pv s)
-                   | None => Err AFuel
+                   | None => Err XFuel
                    end
   end.
 
@@ -199,25 +199,25 @@ Inductive item :=
 | ILoop (src : lsrc) (ops : list mop).
 
 (* the list object a cell works on *)
-Definition target (h : heap) (e : env) (x : str) (s : sel) : result aerr addr :=
+Definition target (h : heap) (e : env) (x : str) (s : sel) : result xerr addr :=
   match env_get e x with
-  | None => Err AStop
-  | Some (HS _) => Err AUnsupported
+  | None => Err XStop
+  | Some (HS _) => Err XUnsupported
   | Some (HR a) =>
     match s with
     | SelSelf => Ok a
     | SelFirst => match hget h a with
                   | Some (HR b :: _) => Ok b
-                  | Some (HS _ :: _) => Err AUnsupported
-                  | _ => Err AStop
+                  | Some (HS _ :: _) => Err XUnsupported
+                  | _ => Err XStop
                   end
     | SelLast => match hget h a with
                  | Some l => match rev l with
                              | HR b :: _ => Ok b
-                             | HS _ :: _ => Err AUnsupported
-                             | [] => Err AStop
+                             | HS _ :: _ => Err XUnsupported
+                             | [] => Err XStop
                              end
-                 | None => Err AStop
+                 | None => Err XStop
                  end
     end
   end.
@@ -251,10 +251,10 @@ Definition obtain_lit (pol : policy) (text : str) (st : pstate) : hv * pstate :=
 Definition with_heap (st : pstate) (h : heap) : pstate := mk_ps h (ps_reg st) (ps_lit st).
 
 (* the body of a loop, once per entry: the loop variable is the entry itself *)
-Fixpoint loop_body (h : heap) (entries : list hv) (ops : list mop) : result aerr (heap * list obs) :=
+Fixpoint loop_body (h : heap) (entries : list hv) (ops : list mop) : result xerr (heap * list obs) :=
   match entries with
   | [] => Ok (h, [])
-  | HS _ :: _ => Err AUnsupported
+  | HS _ :: _ => Err XUnsupported
   | HR b :: r =>
     match cell h b ops with
     | Err e => Err e
@@ -267,23 +267,23 @@ Fixpoint loop_body (h : heap) (entries : list hv) (ops : list mop) : result aerr
 
 (* mainarg_iterlist of a begin_for row: RowParser.assign_value makes a list(value) of the parsed
    cell — the entries are the objects the cell / the context holds *)
-Definition iterlist (pol : policy) (e : env) (src : lsrc) (st : pstate) : result aerr (list hv * pstate) :=
+Definition iterlist (pol : policy) (e : env) (src : lsrc) (st : pstate) : result xerr (list hv * pstate) :=
   match src with
   | LLit t =>
     let p := obtain_lit pol t st in
     match fst p with
-    | HS _ => Err AUnsupported
-    | HR a => match hget (ps_heap (snd p)) a with Some l => Ok (l, snd p) | None => Err AStop end
+    | HS _ => Err XUnsupported
+    | HR a => match hget (ps_heap (snd p)) a with Some l => Ok (l, snd p) | None => Err XStop end
     end
   | LVar x =>
     match env_get e x with
-    | None => Err AStop
-    | Some (HS _) => Err AUnsupported
-    | Some (HR a) => match hget (ps_heap st) a with Some l => Ok (l, st) | None => Err AStop end
+    | None => Err XStop
+    | Some (HS _) => Err XUnsupported
+    | Some (HR a) => match hget (ps_heap st) a with Some l => Ok (l, st) | None => Err XStop end
     end
   end.
 
-Definition run_item (pol : policy) (e : env) (st : pstate) (it : item) : result aerr (pstate * list obs) :=
+Definition run_item (pol : policy) (e : env) (st : pstate) (it : item) : result xerr (pstate * list obs) :=
   match it with
   | IMsg x s ops =>
     match target (ps_heap st) e x s with
@@ -303,7 +303,7 @@ Definition run_item (pol : policy) (e : env) (st : pstate) (it : item) : result 
     end
   end.
 
-Fixpoint run_items (pol : policy) (e : env) (st : pstate) (its : list item) : pstate * result aerr (list obs) :=
+Fixpoint run_items (pol : policy) (e : env) (st : pstate) (its : list item) : pstate * result xerr (list obs) :=
   match its with
   | [] => (st, Ok [])
   | it :: r =>
@@ -316,7 +316,7 @@ Fixpoint run_items (pol : policy) (e : env) (st : pstate) (its : list item) : ps
   end.
 
 (* one instance: the context it is handed — (variable, key of the registry object, value) — and its rows *)
-Record inst := mk_inst { i_ctx : list (str * str * nv); i_items : list item }.
+Record minst := mk_minst { i_ctx : list (str * str * nv); i_items : list item }.
 
 (* SheetParser.__init__: self.context = copy.deepcopy(context) — or not *)
 Fixpoint bind_ctx (pol : policy) (c : list (str * str * nv)) (st : pstate) : env * pstate :=
@@ -328,12 +328,12 @@ Fixpoint bind_ctx (pol : policy) (c : list (str * str * nv)) (st : pstate) : env
     ((x, fst p) :: fst q, snd q)
   end.
 
-Definition run_inst (pol : policy) (st : pstate) (i : inst) : pstate * result aerr (list obs) :=
+Definition run_inst (pol : policy) (st : pstate) (i : minst) : pstate * result xerr (list obs) :=
   let p := bind_ctx pol (i_ctx i) st in
   run_items pol (fst p) (snd p) (i_items i).
 
 (* the instances of a run, in one process; a critical error ends the run *)
-Fixpoint run_all (pol : policy) (st : pstate) (is : list inst) : list (result aerr (list obs)) :=
+Fixpoint run_all (pol : policy) (st : pstate) (is : list minst) : list (result xerr (list obs)) :=
   match is with
   | [] => []
   | i :: r =>
@@ -348,7 +348,7 @@ Definition ps_empty : pstate := mk_ps [] [] [].
 Definition fresh_policy : policy := mk_policy true true.
 
 (* the instance on its own, in a process where nothing has happened *)
-Definition run_alone (i : inst) : result aerr (list obs) := snd (run_inst fresh_policy ps_empty i).
+Definition run_alone (i : minst) : result xerr (list obs) := snd (run_inst fresh_policy ps_empty i).
 
 (* the results up to and including the first error *)
 Fixpoint cut {E T} (l : list (result E T)) : list (result E T) :=
